@@ -445,12 +445,14 @@ IP1, IP2 = ip_address('192.168.0.1'), ip_address('192.168.0.2')
 
 
 def conf_dict(dh_ike=('ecp256',), child_dh=(), mode='transport', ipsec_proto='esp', encr=('aes256', 'aes128'), lifetime=5,
-              dpd=60, ike_lifetime=900, extra_protect=False, dh_ike_b=None, child_dh_b=None, ike_encr=None):
+              dpd=60, ike_lifetime=900, extra_protect=False, dh_ike_b=None, child_dh_b=None, ike_encr=None, ike_integ=None, child_integ=None):
     def protect(index, peer_port, cdh=child_dh):
         p = {'index': index, 'ip_proto': 'tcp', 'mode': mode, 'lifetime': lifetime, 'peer_port': peer_port,
              'ipsec_proto': ipsec_proto, 'encr': list(encr)}
         if cdh:
             p['dh'] = list(cdh)
+        if child_integ:
+            p['integ'] = list(child_integ)
         return p
     d = {
         'alice': {'my_addr': str(IP1), 'peer_addr': str(IP2),
@@ -465,6 +467,9 @@ def conf_dict(dh_ike=('ecp256',), child_dh=(), mode='transport', ipsec_proto='es
     if ike_encr:
         d['alice']['encr'] = list(ike_encr)
         d['bob']['encr'] = list(ike_encr)
+    if ike_integ:
+        d['alice']['integ'] = list(ike_integ)
+        d['bob']['integ'] = list(ike_integ)
     if extra_protect:
         d['alice']['protect'].append({'index': 3, 'ip_proto': 'udp', 'mode': mode, 'lifetime': lifetime, 'peer_port': 0,
                                       'ipsec_proto': ipsec_proto, 'encr': list(encr)})
